@@ -5,6 +5,7 @@ CONSTANT FIX_TPL = TRUE
 CONSTANT FIX_LOGPANIC = TRUE
 CONSTANT FIX_RECFIRST = TRUE
 CONSTANT FIX_GZONCE = TRUE
+CONSTANT FIX_INFO = TRUE
 SPECIFICATION TSpec
 CONSTRAINT Constr
 INVARIANT OneCommit
